@@ -7,7 +7,7 @@ use crate::rng::Rng;
 use crate::sched::ALL_SITES;
 use crate::spec::*;
 
-pub const PLAIN_REF: &[M] = &[M::A0, M::A1, M::B0, M::B1, M::B2, M::B3];
+pub const PLAIN_REF: &[M] = &[M::A0, M::A1, M::B0, M::B1, M::B2, M::B3, M::Z0];
 
 #[derive(Clone, Debug)]
 pub struct CfgOpts {
@@ -171,7 +171,7 @@ pub fn gen_config(rng: &mut Rng, o: &CfgOpts) -> Config {
         let mut clauses = vec![];
         let mut preds: Vec<u32> = vec![];
         let mut left = n_pat;
-        let generic = matches!(m, M::GenU8 | M::GenU16 | M::GmU8 | M::GmU16);
+        let generic = matches!(m, M::GenU8 | M::GenU16 | M::GmU8 | M::GmU16 | M::GpU8 | M::GpU16);
         while left > 0 {
             if generic {
                 // generic instantiations are built through a reduced builder path: one segment
@@ -276,6 +276,7 @@ pub fn gen_config(rng: &mut Rng, o: &CfgOpts) -> Config {
     if rng.chance(1, 2) {
         for c in clauses.iter_mut() {
             if !matches!(c.m, M::A0 | M::A1 | M::B0 | M::B1 | M::B3 | M::B2 | M::S0 | M::S1 | M::S2) {
+                // (no table for zero-sized, generic and special inputs)
                 continue;
             }
             for p in c.patterns.iter_mut() {
@@ -303,6 +304,10 @@ pub fn gen_config(rng: &mut Rng, o: &CfgOpts) -> Config {
                 M::RcProv => &[M::RcReq],
                 M::ArcProv => &[M::ArcReq],
                 M::PinProv => &[M::PinReq],
+                M::V2Prov => &[M::V2Req],
+                M::GpU8 | M::GpU16 => &[M::GmU8, M::GmU16],
+                M::Rc2Prov => &[M::Rc2Req],
+                M::Arc2Prov => &[M::Arc2Req],
                 _ => &[],
             };
             default_progs.push((*m, gen_prog(rng, body_callable, o.nested_calls)));
